@@ -41,7 +41,7 @@ def check_c12(rep, tier):
               "4k3/8/8/2Pp4/2p5/8/8/4K3 w - d6 0 1", "4k3/P7/8/8/8/8/8/4K3 w - - 0 1",
               "r3k2r/8/8/8/8/8/8/R3K2R w KQkq - 0 1", "r3k2r/8/8/8/8/8/8/R3K2R b KQkq - 0 1",
               "4k3/8/8/8/pP6/8/8/4K3 b - b3 0 1", "n1n1k3/1P6/8/8/8/8/6p1/4K1N1 w - - 0 1"]
-    fens = corpus + sample_positions(rep, "C12", 8 if tier == "quick" else 120, 20)
+    fens = corpus + sample_positions(rep, "C12", 8 if tier == "quick" else 400, 20)
     squares = [f + rk for f in FILES for rk in RANKS]
     suffixes_all = ["", "q", "r", "b", "n", "Q", "k", "x", "qq", "p", " ", "N"]
     weird = ["", "e2", "e2e", "é2e4", "e2é4", "e2e4é", "😀", "e2e4qq", "0000", "e9e4", "i2i4", "E2E4", "e2e4 ", "a7a8Q",
@@ -203,7 +203,8 @@ def mutations(r, fen, limit):
     return out
 
 
-HAND = ["9/8/8/8/8/8/8/8 w - -", "rnbqkbnr/pppppppp/8/8/8/8/PPPPPPPP/K6k9 w - -", "rnbqkbnr/pppppppp/45/8/8/8/PPPPPPPP/RNBQKBNR w KQkq -",
+HAND = ["rnbqkbnr/pppppppp/8/8/4P3/8/PPPP1PPP/RNBQKBNR b KQkq e6 0 1", "rnbqkbnr/ppp1pppp/8/3pP3/8/8/PPPP1PPP/RNBQKBNR w KQkq d3 0 2",
+        "9/8/8/8/8/8/8/8 w - -", "rnbqkbnr/pppppppp/8/8/8/8/PPPPPPPP/K6k9 w - -", "rnbqkbnr/pppppppp/45/8/8/8/PPPPPPPP/RNBQKBNR w KQkq -",
         "rnbqkbnr/pppppppp/7/8/8/8/PPPPPPPP/RNBQKBNR w KQkq - 0 1", "rnbqkbnr/pppppppp/08/8/8/8/PPPPPPPP/RNBQKBNR w KQkq - 0 1",
         "rnbqkbnr/pppppppp/8/8/8/8/PPPPPPPP/RNBQKBNR w KQkq A3 0 1", "rnbqkbnr/pppppppp/8/8/8/8/PPPPPPPP/RNBQKBNR w KQkq q3 0 1",
         "rnbqkbnr/pppppppp/8/8/8/8/PPPPPPPP/RNBQKBNR white KQkq - 0 1", "rnbqkbnr/pppppppp/8/8/8/8/PPPPPPPP/RNBQKBNR w KQkq e 0 1",
@@ -306,7 +307,7 @@ def expected_pgn(fen, uci):
 
 def check_c20(rep, tier):
     r = core.rng(rep.seed, "C20")
-    n = 60 if tier == "quick" else 1500
+    n = 60 if tier == "quick" else 8000
     cases = []
     promo_roots = roots.PROMO + ["4k3/P6P/8/8/8/8/p6p/4K3 w - - 0 1"]
     for i in range(n):
